@@ -28,6 +28,8 @@ import (
 	"github.com/honeycombio/refinery/route"
 	"github.com/honeycombio/refinery/sharder"
 	"github.com/honeycombio/refinery/types"
+	jsoniter "github.com/json-iterator/go"
+	"github.com/valyala/fastjson"
 )
 
 type comp struct{}
@@ -439,8 +441,26 @@ func genFields(r *kit.Rng, c gcfg, prof, path string) []field {
 				fs[i].k.bin = true
 			}
 		}
+		// tinylib's NextType only recognises a timestamp extension when at least one byte follows it, so
+		// a timestamp that is the very last value of the buffer is read back as a raw extension (and
+		// survives re-encoding).  That position dependence is the library's; keep it out of the cases.
+		if len(fs) > 0 && endsWithTime(fs[len(fs)-1].v) {
+			fs = append(fs, field{mkey{s: "tail"}, str("pad")})
+		}
 	}
 	return fs
+}
+
+func endsWithTime(n node) bool {
+	switch n.t {
+	case 't':
+		return true
+	case 'a':
+		return len(n.arr) > 0 && endsWithTime(n.arr[len(n.arr)-1])
+	case 'm':
+		return len(n.vals) > 0 && endsWithTime(n.vals[len(n.vals)-1])
+	}
+	return false
 }
 
 func keyTok(k mkey) string {
@@ -784,6 +804,14 @@ func (r *runner) Do(op []string) (string, bool) {
 		}
 		path := op[1]
 		r.cur = nil
+		if path == "jb" || path == "js" {
+			// the JSON number parser is an external function of the model (fastjson on the batch path,
+			// jsoniter on the single-event path): report its value wherever it is not strconv's
+			seen := map[string]bool{}
+			for _, f := range fs {
+				jsonNumberExts(path, f.v, seen)
+			}
+		}
 		if path == "js" {
 			// ExtractMetadata ranges over a Go map: the order is the implementation's choice.  Run the
 			// request a few times, report every outcome seen, and tell the oracle which one the payload
@@ -808,6 +836,7 @@ func (r *runner) Do(op []string) (string, bool) {
 			}
 			sort.Strings(os)
 			r.cur = lp
+			kit.Ext("seen %s", strings.Join(os, "|"))
 			if lp == nil {
 				return "o=" + strings.Join(os, "|"), true
 			}
@@ -900,6 +929,43 @@ func (r *runner) Do(op []string) (string, bool) {
 		return "o=" + o + " r=" + rootState(p) + " " + r.stateObs(p), true
 	}
 	return "bad-op", true
+}
+
+// jsonNumberExts emits `ext jnum <strconv bits> = <library bits>` for every JSON numeral of v that
+// the path's JSON library does not parse to the float64 nearest to the numeral (strconv.ParseFloat).
+func jsonNumberExts(path string, v node, seen map[string]bool) {
+	switch v.t {
+	case 'a':
+		for _, c := range v.arr {
+			jsonNumberExts(path, c, seen)
+		}
+	case 'm':
+		for _, c := range v.vals {
+			jsonNumberExts(path, c, seen)
+		}
+	case 'd':
+		if v.num == "" || seen[v.num] {
+			return
+		}
+		seen[v.num] = true
+		var got float64
+		if path == "jb" {
+			got = fastjson.MustParse(v.num).GetFloat64()
+		} else {
+			var a any
+			if err := jsoniter.Unmarshal([]byte(v.num), &a); err != nil {
+				return
+			}
+			f, ok := a.(float64)
+			if !ok {
+				return
+			}
+			got = f
+		}
+		if math.Float64bits(got) != v.bits {
+			kit.Ext("jnum %016x = %016x", v.bits, math.Float64bits(got))
+		}
+	}
 }
 
 // ---------------------------------------------------------------- facts
